@@ -482,6 +482,15 @@ def mon_c03(hs, prev, op, ok, trace, cur, known):
             want = e['samt'] * e['sapp'] // D + e['bamt'] * e['bapp'] // D
             if und != want:
                 return ('violation', 'batch %d undelegated %d, requests valued at the recorded rates give %d' % (i, und, want))
+            # the token that did NOT arrive in this transaction is priced at the rate the State query
+            # reported just before it (backing over claims after recognising any slashing)
+            if t[0] == 'cw' and t[3] in ('send', 'sendfrom') and pq is not None and recomputes(prev):
+                if t[1] == 'bsei' and e['samt'] > 0 and e['sapp'] != pq[1]:
+                    return ('violation', 'batch %d: the stSei requests were undelegated at rate %d, the State query reported %d just before'
+                            % (i, e['sapp'], pq[1]))
+                if t[1] == 'stsei' and e['bamt'] > 0 and e['bapp'] != pq[0]:
+                    return ('violation', 'batch %d: the bSei requests were undelegated at rate %d, the State query reported %d just before'
+                            % (i, e['bapp'], pq[0]))
     return None
 
 
@@ -1158,6 +1167,29 @@ def resolve_f2(pid, last_line, full, known):
 
 
 # ------------------------------------------------------------------ C09 (passive part; the dry-run probes are in the harness)
+def mon_c09_epoch(hs, prev, op, ok, trace, cur, known):
+    """the request is undelegated by the first unbond that arrives after the epoch period: an accepted
+    unbond arriving more than one epoch period after the previous undelegation (the time recorded in the
+    last history entry, or the hub's instantiation) closes the open batch - whatever else happened in
+    between (parameter updates, pause cycles, other users' operations)"""
+    t = track_inst(hs, op, ok)
+    if t[0] == 'inst_hub' and ok:
+        hs['c09_inst_time'] = now(cur)
+    if prev is None or not ok or not standard(prev, cur, hs):
+        return None
+    if not (t[0] == 'cw' and t[3] in ('send', 'sendfrom') and t[-1] == 'unbond' and t[-3] == 'hub'):
+        return None
+    ph = hist(prev)
+    last = max((e['time'] for e in ph.values()), default=hs.get('c09_inst_time'))
+    if last is None:
+        return None
+    epoch = int(prev.one('hub.params')[0])
+    if now(prev) - last > epoch and batch(cur)[0] == batch(prev)[0]:
+        return ('violation', 'unbond at t=%d did not undelegate the open batch although the previous undelegation was at t=%d '
+                'and the epoch period is %d' % (now(prev), last, epoch))
+    return None
+
+
 def mon_c09(hs, prev, op, ok, trace, cur, known):
     t = track_inst(hs, op, ok)
     if prev is None or ok or not standard(prev, cur, hs):
